@@ -278,7 +278,15 @@ func (b bin) Iter(yield func(string, Value) bool) {
 }
 
 func (b bin) Size() int {
-	return 3
+	// min and max are only present if the bin is bounded, see Get and Iter
+	size := 1
+	if b.IsMin {
+		size++
+	}
+	if b.IsMax {
+		size++
+	}
+	return size
 }
 
 func (b bin) String() string {
